@@ -66,6 +66,10 @@ def enc_op(op):
         return ["fault", str(op[1]), str(op[2]), str(op[3])]
     if k == "sockev":
         return ["sockev", b(op[1])]
+    if k == "poke":
+        return ["poke", enc(op[1]), op[2]]
+    if k == "call":
+        return ["call", enc(op[1]), op[2]]
     raise ValueError(op)
 
 
